@@ -8,8 +8,9 @@
     versions) and job runs (incremental or full sync, any batch size >= 1, optionally with the sink failing at
     its k-th call; a full sync may have a foreign write to a non-main dataset land between two of its pages,
     [ORunMid]).  Join paths are arbitrary lists of hops (any length, any mix of directions, through any
-    datasets); several dependencies may share a dataset.  The completeness theorems assume LatestOnly = false
-    (see C18_complete_refuted_latestonly: with LatestOnly even the three repairs are not enough). *)
+    datasets); several dependencies may share a dataset.  C18_tokens_safe / C18_complete are stated for
+    LatestOnly = false; C18_tokens_safe_latest / C18_complete_latest cover LatestOnly sources under the fourth
+    repair (see C18_complete_refuted_latestonly: with LatestOnly the three repairs alone are not enough). *)
 From Coq Require Import List ZArith NArith Bool Arith Lia.
 From DH Require Import Model.MultiSource Proofs.MultiSourceProofs Proofs.MultiSourceWitness
      Check.C18Check Proofs.C18CheckProofs.
@@ -40,6 +41,33 @@ Theorem C18_complete : forall v c n ops s tr,
 Proof. exact complete. Qed.
 Print Assumptions C18_complete.
 
+(** The same for LatestOnly sources, with the fourth repair ([sound_l]: SkipPrev when LatestOnly): [covered_l]
+    asks, for a change that LatestOnly skips (a later change of the same entity exists at that moment), only for
+    the main entities its entity was connected to through a first outgoing hop at the previous run; for every
+    other change everything [covered] asks.  With LatestOnly = false the two notions coincide
+    ([covered_l_plain]), so these statements contain C18_tokens_safe / C18_complete. *)
+Theorem C18_tokens_safe_latest : forall v c n ops s tr tk,
+  sound_l v c -> Forall (batch_ok c) ops ->
+  exec v c (init_state n) ops = (s, tr) -> s_job s = Some tk ->
+  forall dp, In dp (c_deps c) -> forall p, 0 <= p < dtok tk (d_ds dp) -> covered_l c n tr dp p.
+Proof. exact tokens_safe_l. Qed.
+Print Assumptions C18_tokens_safe_latest.
+
+Theorem C18_complete_latest : forall v c n ops s tr,
+  sound_l v c -> Forall (batch_ok c) ops ->
+  exec v c (init_state n) ops = (s, tr) -> caught_up c s ->
+  forall dp, In dp (c_deps c) -> forall p, 0 <= p < lenz (feed_of (s_hub s) (d_ds dp)) -> covered_l c n tr dp p.
+Proof. exact complete_l. Qed.
+Print Assumptions C18_complete_latest.
+
+Theorem C18_fixpoint_caught_up_latest : forall v c h b core tk evs ok tk' dp,
+  sound_l v c -> (1 <= b)%nat -> tok_ok tk -> tok_in c h tk -> In dp (c_deps c) ->
+  run_events v c h (Some tk) false b None core = (evs, ok) -> last_tok evs (Some tk) = Some tk' ->
+  dtok tk' (d_ds dp) = dtok tk (d_ds dp) ->
+  dtok tk (d_ds dp) = lenz (feed_of h (d_ds dp)).
+Proof. exact fixpoint_caught_up_l. Qed.
+Print Assumptions C18_fixpoint_caught_up_latest.
+
 (** "Its continuation tokens no longer advance" means caught up: a fault-free incremental run that leaves a
     dependency token where it was had nothing left to read in that dataset. *)
 Theorem C18_fixpoint_caught_up : forall v c h b core tk evs ok tk' dp,
@@ -53,15 +81,15 @@ Print Assumptions C18_fixpoint_caught_up.
 (** One ReadEntities call, at the granularity of the pipeline's processEntities calls: whenever a call persists
     a token, everything the token moved past in this call has been handed over in this or an earlier call. *)
 Theorem C18_page_safe : forall v c h tk0 b cs tk1 more,
-  f_shared v = SharedSnapshot -> f_prev v = PrevFeed -> c_latest c = false -> (1 <= b)%nat ->
+  f_shared v = SharedSnapshot -> f_prev v = PrevFeed -> (c_latest c = true -> f_skip v = SkipPrev) -> (1 <= b)%nat ->
   (forall k, 0 <= dtok tk0 k) -> 0 <= t_main tk0 ->
   read_page v c h tk0 b = (cs, tk1, more) ->
   forall cs1 k cs2, cs = cs1 ++ k :: cs2 -> forall dp, In dp (c_deps c) -> forall p m,
     dtok tk0 (d_ds dp) <= p < dtok (k_tok k) (d_ds dp) -> req c h tk0 dp p m ->
     In m (ents (cs1 ++ [k])).
 Proof.
-  intros v c h tk0 b cs tk1 more Hs Hp Hl Hb H1 H2 H.
-  destruct (page_safe v c h tk0 b Hs Hp Hl Hb H1 H2 _ _ _ H) as [Hsafe _]. exact Hsafe.
+  intros v c h tk0 b cs tk1 more Hs Hp Hk Hb H1 H2 H.
+  destruct (page_safe v c h tk0 b Hs Hp Hk Hb H1 H2 _ _ _ H) as [Hsafe _]. exact Hsafe.
 Qed.
 Print Assumptions C18_page_safe.
 
@@ -172,6 +200,22 @@ Proof.
   - eexists. split; [vm_compute; reflexivity|]. intros dp [<-|[<-|[]]]; vm_compute; reflexivity.
   - split; [|vm_compute; reflexivity]. right. unfold connected_prev. cbn [d_joins c_a]. split; [reflexivity|]. split; [lia|].
     exists 2%N. split; [|reflexivity]. exists 1%nat. split; [now left|]. cbn [j_inv]. triple.
+Qed.
+(** the hypotheses of C18_complete_latest are met by the LatestOnly witness history of F18d: the repaired variant
+    ends caught up, position 3 of the dependency feed (entity 11's superseded change) is a skipped change, and
+    the main entity 1 it pointed to at the previous run is required for it *)
+Example C18_complete_latest_nonvacuous :
+  sound_l v_fixed c_d /\ c_latest c_d = true /\ Forall (batch_ok c_d) ops_d
+  /\ caught_up c_d (fst (exec v_fixed c_d (init_state 2) ops_d))
+  /\ (let h := s_hub (fst (exec v_fixed c_d (init_state 2) ops_d)) in
+      exists x, nthz (feed_of h 1) 3 = Some x /\ skipped c_d (feed_of h 1) 3 x = true
+                /\ required_l c_d h (mkDep 1 [mkJoin 0 1 false]) 2 3 x 1).
+Proof.
+  split; [split; [repeat split|reflexivity]|]. split; [reflexivity|]. split; [repeat constructor|]. split.
+  - eexists. split; [vm_compute; reflexivity|]. intros dp [<-|[]]; vm_compute; reflexivity.
+  - cbn zeta. eexists. split; [vm_compute; reflexivity|]. split; [vm_compute; reflexivity|].
+    split; [|vm_compute; reflexivity]. right. unfold connected_prev. cbn [d_joins]. split; [reflexivity|]. split; [lia|].
+    exists 1%N. split; [|reflexivity]. exists 1%nat. split; [now left|]. cbn [j_inv]. triple.
 Qed.
 (** a dependency write that lands between two pages of a full sync is not jumped over: the watermark was taken
     when the full sync started, so the next incremental run re-emits the main entity the first page had
